@@ -10,7 +10,8 @@ EXPLANATION = (
     "strstart!=0, FCHECK mod 31, big-endian), gzip magic 1f 8b 08, little-endian CRC then ISIZE trailer, big-endian "
     "Adler trailer; stored-block LEN/NLEN. GUARD: every match search (longest_match*, compare256 in quick) is "
     "control-dependent on dist <= max_dist() and dist > 0, and max_dist() = w_size - MIN_LOOKAHEAD. "
-    "Does not decide dynamic Huffman construction, final-block flag uniqueness or window-relative distances after slides.")
+    "Does not decide dynamic Huffman construction, final-block flag uniqueness or window-relative distances after slides. "
+    "PAIR/header-crc-once (shared with C20): in flush_bytes a running-CRC update from which a suspension is still reachable is taken over the pending buffer, so every gzip header byte enters FHCRC exactly once.")
 
 CLAIM = dict(
     text="Static: exhaustive const-table comparison with RFC 1951 (compiler const evaluation), header/trailer constant "
